@@ -311,6 +311,15 @@ class Engine(
                     # before this Sort via a nested subquery (which means we
                     # apply a new Sort-only Select to 'select' itself).
                     return Select.apply_skip(select, sort=operation)
+                elif select.is_compound and not all(
+                    isinstance(term.expression, ColumnReference) for term in operation.terms
+                ):
+                    # The ORDER BY clause of a UNION [ALL] can only reference
+                    # its result columns directly, so sorting on more general
+                    # expressions requires nesting the UNION in a subquery.
+                    return Select.apply_skip(
+                        select.reapply_skip(sort=None), sort=select.sort.then(operation)
+                    )
                 else:
                     return select.reapply_skip(sort=select.sort.then(operation))
             case PartialJoin(binary=binary, fixed=fixed, fixed_is_lhs=fixed_is_lhs):
